@@ -484,6 +484,9 @@ func c15Create(c *rt.CaseResult, seed int64, idx int, scratch string) [][]tlog {
 		wg.Add(1)
 		go func(g int) {
 			defer wg.Done()
+			// the caller's buffer is its own again as soon as Write has returned (io.Writer): it
+			// is refilled for the next Write while the storing goroutine is still at work
+			buf := make([]byte, 300)
 			for i := 0; i < 25; i++ {
 				s := time.Since(t0)
 				f, err := env.DB.Create(ctxBg, fmt.Sprintf("f%d", g%2))
@@ -491,7 +494,7 @@ func c15Create(c *rt.CaseResult, seed int64, idx int, scratch string) [][]tlog {
 					continue
 				}
 				for w := 0; w < 40; w++ {
-					f.Write(seqrun.Content(fmt.Sprintf("p%d-%d-%d", g, i, w), 1+w*7%300))
+					f.Write(buf[:copy(buf, seqrun.Content(fmt.Sprintf("p%d-%d-%d", g, i, w), 1+w*7%300))])
 					if w%13 == 0 {
 						f.Write(nil)
 					}
